@@ -476,6 +476,25 @@ func probeTemplate(c *vf.Ctx, w *chain.World, tp template) {
 			curs[j].v.Lo--
 		}
 	}
+	// exchange tamperings: the contents of every two distinct same-typed leaves (currencies, addresses, hashes, keys,
+	// signatures, integers) and every two elements of one list are exchanged - multisets of values are unchanged, so a
+	// signature hash that does not bind positions would not notice
+	lvs := leaves(ptr)
+	for i := range lvs {
+		for j := i + 1; j < len(lvs); j++ {
+			a, b := lvs[i], lvs[j]
+			if a.v.Type() != b.v.Type() || strings.HasPrefix(b.path, a.path+"[") || strings.HasPrefix(b.path, a.path+".") || reflect.DeepEqual(a.v.Interface(), b.v.Interface()) {
+				continue
+			}
+			tmp := reflect.New(a.v.Type()).Elem()
+			tmp.Set(a.v)
+			a.v.Set(b.v)
+			b.v.Set(tmp)
+			check("exchange " + a.path + " <-> " + b.path)
+			b.v.Set(a.v)
+			a.v.Set(tmp)
+		}
+	}
 	// structured substitutions
 	if u.V2 != nil {
 		t := u.V2
@@ -570,6 +589,22 @@ func probeTemplate(c *vf.Ctx, w *chain.World, tp template) {
 
 // moveUnspec: a compensating move is outside the signed set if either end is.
 func moveUnspec(tp template, label string) bool {
+	if strings.HasPrefix(label, "exchange ") {
+		parts := strings.Split(strings.TrimPrefix(label, "exchange "), " <-> ")
+		// v1 signature entries are self-contained (parent, key index, covered fields, signature) and do not sign each
+		// other unless listed in CoveredFields.Signatures: re-ordering whole entries changes nothing that was authorised
+		if len(parts) == 2 && wholeV1SigEntry(parts[0]) && wholeV1SigEntry(parts[1]) {
+			return true
+		}
+		for _, p := range parts {
+			for _, suffix := range []string{"", "+1", ".Lo+1", ".Hi+1", "[byte 0]^1", "[drop last]"} {
+				if tp.unspec(p + suffix) {
+					return true
+				}
+			}
+		}
+		return false
+	}
 	if !strings.HasPrefix(label, "move 1 hasting ") {
 		return false
 	}
@@ -580,6 +615,61 @@ func moveUnspec(tp template, label string) bool {
 type curField struct {
 	path string
 	v    *types.Currency
+}
+
+func wholeV1SigEntry(p string) bool {
+	return strings.HasPrefix(p, ".Signatures[") && strings.HasSuffix(p, "]") && strings.Count(p, "[") == 1
+}
+
+type leaf struct {
+	path string
+	v    reflect.Value
+}
+
+// leaves collects every settable leaf (currency, byte array, integer, bool, byte slice) and every element of every list
+// reachable from ptr.
+func leaves(ptr any) (out []leaf) {
+	var walk func(v reflect.Value, path string)
+	walk = func(v reflect.Value, path string) {
+		switch v.Kind() {
+		case reflect.Struct:
+			if v.Type() == reflect.TypeOf(types.Currency{}) || v.Type() == reflect.TypeOf(time.Time{}) {
+				if v.CanSet() {
+					out = append(out, leaf{path, v})
+				}
+				return
+			}
+			for i := 0; i < v.NumField(); i++ {
+				if v.Type().Field(i).IsExported() {
+					walk(v.Field(i), path+"."+v.Type().Field(i).Name)
+				}
+			}
+		case reflect.Slice, reflect.Array:
+			if v.Type().Elem().Kind() == reflect.Uint8 {
+				if v.CanSet() && v.Len() > 0 {
+					out = append(out, leaf{path, v})
+				}
+				return
+			}
+			for i := 0; i < v.Len(); i++ {
+				e := v.Index(i)
+				if e.CanSet() && (e.Kind() == reflect.Struct || e.Kind() == reflect.Interface || e.Kind() == reflect.Pointer) && e.Type() != reflect.TypeOf(types.Currency{}) {
+					out = append(out, leaf{fmt.Sprintf("%s[%d]", path, i), e}) // whole list element
+				}
+				walk(e, fmt.Sprintf("%s[%d]", path, i))
+			}
+		case reflect.Pointer, reflect.Interface:
+			if !v.IsNil() {
+				walk(v.Elem(), path)
+			}
+		case reflect.Uint64, reflect.Uint8, reflect.Int, reflect.Bool, reflect.String:
+			if v.CanSet() {
+				out = append(out, leaf{path, v})
+			}
+		}
+	}
+	walk(reflect.ValueOf(ptr).Elem(), "")
+	return
 }
 
 // currencyFields collects pointers to every Currency reachable from ptr (reflection walk).
@@ -727,7 +817,7 @@ func eraOf(s chain.NetSpec, parentHeight uint64) int {
 }
 
 func run(c *vf.Ctx) {
-	c.Set("rule", "for every network family and EVERY height up to the horizon (one state per height, contracts formed and keys rotated on the way) every applicable signed template (9 v1, 11 v2) is validated untampered (must be accepted) and under every single-point tampering: reflection walk over every field of the signed transaction (+-1, first/last byte flips of every hash/key/address/signature, drop/duplicate of every list element) plus structured substitutions (other policy/keys, opaque satisfied branch, surplus/garbage signature, swapped signatures, proposed instead of current keys, foreign renewal keys); the block is re-sealed, never re-signed; oracle: rejected unless the path is outside the template's signed set (counted as unspecified); era replay of v1 signatures across every fork height")
+	c.Set("rule", "for every network family and EVERY height up to the horizon (one state per height, contracts formed and keys rotated on the way) every applicable signed template (9 v1, 11 v2) is validated untampered (must be accepted) and under every single-point tampering: reflection walk over every field of the signed transaction (+-1, first/last byte flips of every hash/key/address/signature, drop/duplicate of every list element), exchange of the contents of every two same-typed leaves or list elements, plus structured substitutions (other policy/keys, opaque satisfied branch, surplus/garbage signature, swapped signatures, proposed instead of current keys, foreign renewal keys); the block is re-sealed, never re-signed; oracle: rejected unless the path is outside the template's signed set (counted as unspecified); era replay of v1 signatures across every fork height")
 	keys := chain.NewKeys(c.Seed)
 	nets := []string{"v1-eras", "mixed", "v2-only"}
 	if !c.Quick() {
